@@ -102,7 +102,7 @@ def check(ctx):
     scales_not_memoised(ctx, "R13.9")
     from ..report import Shared
     from . import c08
-    c08.check(Shared(ctx, {"R08.1": "R13.8"}, only=lambda inst: inst.startswith("screening weights") or inst.startswith("dimension typing"),
+    c08.check(Shared(ctx, {"R08.1": "R13.8"}, only=lambda inst: inst.startswith("screening weights") or inst.startswith("dimension typing") or "converts into the user's units" in inst,
                      consequence="the stored induced potential is (mu0/4pi) x the Biot-Savart sum of the stored currents only in one unit system: "
                                  "for a device stated in nm it is 1000 times too strong, and every step is still accepted"))
     from ..effects import input_purity
